@@ -209,7 +209,7 @@ def _geneinfo_roundtrip(rng, tail):
     problems = []
     if buf.read() != tail:
         problems.append("gene info reader not aligned")
-    for f in ("delta", "chr_id", "start", "end"):
+    for f in ("delta", "chr_id", "start", "end", "all_read_region_start", "all_read_region_end"):
         if getattr(g, f) != getattr(g2, f):
             problems.append("gene info %s saved as %r, loaded as %r" % (f, getattr(g, f), getattr(g2, f)))
     return problems
